@@ -193,10 +193,15 @@ def kani_cmd(h, tgt, extra=''):
             % (h.package, feat, h.full, tgt, (os.environ.get('VERIF_KANI_EXTRA', '') + ' ' + h.kani_args).strip(), extra))
 
 
-def build_group(scr, package, features):
+def build_group(scr, package, features, harnesses=()):
     feat = ('--features ' + features) if features else ''
     tgt = scr.tgt(package, features)
-    cmd = 'cargo kani -p %s %s --only-codegen -Z stubbing --target-dir %s' % (package, feat, tgt)
+    # code generation only for the harnesses of this check: generating all ~350 harnesses of the crate
+    # costs 4-5 minutes, the selected ones a few seconds; the per-query runs reuse this build
+    filt = ' '.join('--harness %s' % h.full for h in harnesses)
+    if filt:
+        filt += ' --exact'
+    cmd = 'cargo kani -p %s %s --only-codegen -Z stubbing --target-dir %s %s' % (package, feat, tgt, filt)
     log = os.path.join(scr.logs, 'build-%s-%s.log' % (package, features.replace(',', '_')))
     rc, out, dt, to = sh(cmd, cwd=scr.repo, timeout=1200, log=log)
     return rc == 0 and not to, out, dt
@@ -379,7 +384,8 @@ def check(prop, tier, jobs, keep, only=None, thorough_only=False):
         groups = sorted(set((h.package, h.features) for h in sel))
         ok_groups = {}
         with cf.ThreadPoolExecutor(max_workers=min(4, len(groups))) as ex:
-            futs = {ex.submit(build_group, scr, p, f): (p, f) for p, f in groups}
+            futs = {ex.submit(build_group, scr, p, f, [h for h in sel if (h.package, h.features) == (p, f)]): (p, f)
+                    for p, f in groups}
             for fu in cf.as_completed(futs):
                 ok, out, dt = fu.result()
                 ok_groups[futs[fu]] = ok
